@@ -1,6 +1,12 @@
 package main
 
-// Scenario sub-engines of engine "cut" (property C05, oracle only): dialq, noanswer, cancel, relay.
+// Scenario sub-engines of engine "cut" (property C05): dialq, noanswer, cancel, relayscen.
+// Each scenario is a case with a structured input (its parameters, the 'input' field of a
+// replay file) and an observable in the encoding of Model/CallScen.v (run_c05dialq, run_c05noanswer,
+// run_c05cancel, run_c05relay): per caller [failed?, time at which control was back in ms].  The
+// time is canonicalised: it is the predicted moment (the caller's deadline / cancellation)
+// when the measured time lies within [predicted - 20 ms, predicted + slack], the measured time
+// otherwise; a scenario whose observable does not canonicalise is re-run up to 3 times.
 
 import (
 	"fmt"
@@ -99,36 +105,57 @@ func runRelayCut(ex *cutExchange, hop int, spec faultSpec) (r cutResult, streams
 // ---------------------------------------------------------------- scenarios
 
 type scenJob struct {
-	sub, id, key string
-	run          func() string // returns the verdict
-	verdict      string
-	hist         []string
+	sub, id string
+	in      []int64
+	run     func() (string, []int64) // returns the verdict and the observable
+	verdict string
+	obs     []int64
+	hist    []string
+}
+
+const c05Early = 20 * time.Millisecond
+
+func c05ms(d time.Duration) int64 { return int64(d / time.Millisecond) }
+
+// c05Snap: the predicted moment when the measured one lies in [predicted-20ms, predicted+slack]
+func c05Snap(elapsed, predicted time.Duration) (int64, bool) {
+	if elapsed >= predicted-c05Early && elapsed <= predicted+cutSlack {
+		return c05ms(predicted), true
+	}
+	return c05ms(elapsed), false
+}
+
+// c05Stable runs a timing-sensitive scenario up to 4 times: the first run without verdict whose
+// observable canonicalises decides; a verdict is kept only if all 4 runs have one.
+func c05Stable(f func() (string, []int64, bool)) (string, []int64) {
+	var v string
+	var obs []int64
+	clean := false
+	for k := 0; k < 4; k++ {
+		v1, o1, snapped := f()
+		if v1 == "" && snapped {
+			return "", o1
+		}
+		if v1 == "" {
+			clean = true
+		}
+		v, obs = v1, o1
+	}
+	if clean || v == "" {
+		return "", obs
+	}
+	return v + " (reproduced 4 of 4 runs)", obs
 }
 
 func late(elapsed, deadline time.Duration) bool { return elapsed > deadline+cutSlack }
 
-// threeTimes re-runs a timing-sensitive scenario: a verdict is kept only if it shows up
-// in the first run and in 3 of 3 immediate re-runs.
-func threeTimes(f func() string) string {
-	v := f()
-	if v == "" {
-		return ""
-	}
-	for k := 0; k < 3; k++ {
-		if f() == "" {
-			return ""
-		}
-	}
-	return v + " (reproduced 4 of 4 runs)"
-}
-
 // dialq: callers queued on the same peer while a connection attempt to it hangs.
 // kind 0: the listener accepts and never answers the handshake
 // kind 1: the dialer itself hangs until its context ends (host unreachable, SYN unanswered)
-func dialqScenario(kind int, longD time.Duration, shortDs []time.Duration, stagger time.Duration) string {
+func dialqScenario(kind int, longD time.Duration, shortDs []time.Duration, stagger time.Duration) (string, []int64, bool) {
 	ln, err := net.Listen("tcp", "127.0.0.1:0")
 	if err != nil {
-		return "[harness-crash] listen: " + err.Error()
+		return "[harness-crash] listen: " + err.Error(), nil, false
 	}
 	defer ln.Close()
 	opts := &tchannel.ChannelOptions{}
@@ -140,7 +167,7 @@ func dialqScenario(kind int, longD time.Duration, shortDs []time.Duration, stagg
 	}
 	ch, err := tchannel.NewChannel("c05-dialq", opts)
 	if err != nil {
-		return "[harness-crash] " + err.Error()
+		return "[harness-crash] " + err.Error(), nil, false
 	}
 	defer ch.Close()
 	target := ln.Addr().String()
@@ -175,9 +202,16 @@ func dialqScenario(kind int, longD time.Duration, shortDs []time.Duration, stagg
 		go call(i+1, d)
 	}
 	wg.Wait()
+	var obs []int64
+	snapped := true
+	for _, r := range results {
+		t, ok := c05Snap(r.elapsed, r.d)
+		snapped = snapped && ok
+		obs = append(obs, b2i(r.err != nil), t)
+	}
 	for i, r := range results {
 		if r.err == nil {
-			return fmt.Sprintf("caller %d: BeginCall to a peer that never completes a handshake reported success", i)
+			return fmt.Sprintf("caller %d: BeginCall to a peer that never completes a handshake reported success", i), obs, snapped
 		}
 		if late(r.elapsed, r.d) {
 			who := "the first caller"
@@ -185,17 +219,17 @@ func dialqScenario(kind int, longD time.Duration, shortDs []time.Duration, stagg
 				who = fmt.Sprintf("caller %d, queued behind the first caller's connection attempt (deadline %v),", i, longD)
 			}
 			return fmt.Sprintf("[c05:newconnlock-no-ctx] %s with a %v deadline got control back after %v (err=%v); kind=%d",
-				who, r.d, r.elapsed.Round(time.Millisecond), r.err, kind)
+				who, r.d, r.elapsed.Round(time.Millisecond), r.err, kind), obs, snapped
 		}
 	}
-	return ""
+	return "", obs, snapped
 }
 
 // noanswer: the peer shakes hands, takes the request, and never answers.
-func noAnswerScenario(ex *cutExchange, deadline time.Duration) string {
+func noAnswerScenario(ex *cutExchange, deadline time.Duration) (string, []int64, bool) {
 	ln, err := net.Listen("tcp", "127.0.0.1:0")
 	if err != nil {
-		return "[harness-crash] listen: " + err.Error()
+		return "[harness-crash] listen: " + err.Error(), nil, false
 	}
 	defer ln.Close()
 	stop := make(chan struct{})
@@ -203,24 +237,26 @@ func noAnswerScenario(ex *cutExchange, deadline time.Duration) string {
 	go rawResponder(ln, ex, false, stop)
 	client, err := tchannel.NewChannel("c05-client", nil)
 	if err != nil {
-		return "[harness-crash] " + err.Error()
+		return "[harness-crash] " + err.Error(), nil, false
 	}
 	defer client.Close()
 	r := clientCall(client, ln.Addr().String(), ex, deadline, 0)
+	t, snapped := c05Snap(r.elapsed, deadline)
+	obs := []int64{b2i(r.err != nil), t}
 	if r.err == nil {
-		return "a call whose peer never answered reported success"
+		return "a call whose peer never answered reported success", obs, snapped
 	}
 	if late(r.elapsed, deadline) {
-		return fmt.Sprintf("peer never answers: deadline %v, control back after %v (err=%v)", deadline, r.elapsed.Round(time.Millisecond), r.err)
+		return fmt.Sprintf("peer never answers: deadline %v, control back after %v (err=%v)", deadline, r.elapsed.Round(time.Millisecond), r.err), obs, snapped
 	}
-	return ""
+	return "", obs, snapped
 }
 
 // cancel: the caller cancels `after` into an exchange with a peer that answers late or never.
-func cancelScenario(ex *cutExchange, deadline, after time.Duration, answer bool) (string, bool) {
+func cancelScenario(ex *cutExchange, deadline, after time.Duration, answer bool) (string, []int64, bool) {
 	ln, err := net.Listen("tcp", "127.0.0.1:0")
 	if err != nil {
-		return "[harness-crash] listen: " + err.Error(), false
+		return "[harness-crash] listen: " + err.Error(), nil, false
 	}
 	defer ln.Close()
 	stop := make(chan struct{})
@@ -228,18 +264,36 @@ func cancelScenario(ex *cutExchange, deadline, after time.Duration, answer bool)
 	go rawResponder(ln, ex, answer, stop)
 	client, err := tchannel.NewChannel("c05-client", nil)
 	if err != nil {
-		return "[harness-crash] " + err.Error(), false
+		return "[harness-crash] " + err.Error(), nil, false
 	}
 	defer client.Close()
 	r := clientCall(client, ln.Addr().String(), ex, deadline, after)
-	prompt := r.elapsed <= after+100*time.Millisecond
-	if v := judgeCut(ex, &r, deadline); v != "" {
-		return "cancelled call: " + v, prompt
+	// the moment the caller's context ends: its cancellation, or the deadline
+	bound := deadline
+	if after > 0 && after < deadline {
+		bound = after
+	}
+	v := judgeCut(ex, &r, deadline)
+	var obs []int64
+	var snapped bool
+	if answer {
+		// the response races with the cancellation: any valid outcome by the end of the context
+		if v == "" && r.elapsed <= bound+cutSlack {
+			obs, snapped = []int64{2, 0}, true
+		} else {
+			obs, snapped = []int64{3, c05ms(r.elapsed)}, false
+		}
+	} else {
+		t, ok := c05Snap(r.elapsed, bound)
+		obs, snapped = []int64{b2i(r.err != nil), t}, ok
+	}
+	if v != "" {
+		return "cancelled call: " + v, obs, snapped
 	}
 	if late(r.elapsed, deadline) {
-		return fmt.Sprintf("caller cancelled after %v: deadline %v, control back after %v (err=%v)", after, deadline, r.elapsed.Round(time.Millisecond), r.err), prompt
+		return fmt.Sprintf("caller cancelled after %v: deadline %v, control back after %v (err=%v)", after, deadline, r.elapsed.Round(time.Millisecond), r.err), obs, snapped
 	}
-	return "", prompt
+	return "", obs, snapped
 }
 
 func engineCutScenarios(rng *rand.Rand, n int, tier string, o *Out) {
@@ -258,9 +312,15 @@ func engineCutScenarios(rng *rand.Rand, n int, tier string, o *Out) {
 			shorts = append(shorts, time.Duration(pick(rng, 100, 150, 200, 300))*time.Millisecond)
 		}
 		stagger := time.Duration(pick(rng, 20, 50)) * time.Millisecond
-		j := &scenJob{sub: "dialq", id: fmt.Sprintf("q%d", i), key: fmt.Sprint(kind, longD, shorts, stagger)}
+		in := []int64{int64(kind), c05ms(longD), c05ms(stagger)}
+		for _, d := range shorts {
+			in = append(in, c05ms(d))
+		}
+		j := &scenJob{sub: "c05dialq", id: fmt.Sprintf("q%d", i), in: in}
 		j.hist = []string{fmt.Sprintf("dialq:kind=%d", kind), fmt.Sprintf("dialq:queued=%d", len(shorts))}
-		j.run = func() string { return threeTimes(func() string { return dialqScenario(kind, longD, shorts, stagger) }) }
+		j.run = func() (string, []int64) {
+			return c05Stable(func() (string, []int64, bool) { return dialqScenario(kind, longD, shorts, stagger) })
+		}
 		jobs = append(jobs, j)
 	}
 	o.Sample(map[string]interface{}{"sub": "dialq", "what": "listener that never answers the handshake / dialer hanging until ctx ends; first caller 0.9-1.5 s deadline, 1-5 queued callers 100-300 ms"})
@@ -269,32 +329,25 @@ func engineCutScenarios(rng *rand.Rand, n int, tier string, o *Out) {
 	for i := 0; i < 6*scale; i++ {
 		ex := genExchanges(rng, 2)[1]
 		d := time.Duration(pick(rng, 100, 200, 300)) * time.Millisecond
-		j := &scenJob{sub: "noanswer", id: fmt.Sprintf("na%d", i), key: fmt.Sprint(i, d, len(ex.arg3), ex.flush3)}
-		j.hist = []string{fmt.Sprintf("noanswer:deadline=%v", d)}
-		j.run = func() string { return threeTimes(func() string { return noAnswerScenario(ex, d) }) }
+		// input: the deadline (what the model needs), then the exchange for the record
+		j := &scenJob{sub: "c05noanswer", id: fmt.Sprintf("na%d", i), in: []int64{c05ms(d)}}
+		j.hist = []string{fmt.Sprintf("noanswer:deadline=%v", d), fmt.Sprintf("noanswer:arg3=%d flushes=%d", len(ex.arg3), len(ex.flush3))}
+		j.run = func() (string, []int64) {
+			return c05Stable(func() (string, []int64, bool) { return noAnswerScenario(ex, d) })
+		}
 		jobs = append(jobs, j)
 	}
 
 	// cancel
-	var promptN, cancelN int32
-	var pm sync.Mutex
 	for i := 0; i < 24*scale; i++ {
 		ex := genExchanges(rng, 2)[i%2]
 		after := time.Duration(rng.Intn(250)) * time.Millisecond
 		answer := i%3 == 0
-		j := &scenJob{sub: "cancel", id: fmt.Sprintf("c%d", i), key: fmt.Sprint(i, after, answer, ex.dir)}
-		j.hist = []string{fmt.Sprintf("cancel:after~%dms", int(after/(50*time.Millisecond))*50), fmt.Sprintf("cancel:peer-answers=%v", answer)}
-		j.run = func() string {
-			return threeTimes(func() string {
-				v, prompt := cancelScenario(ex, cutDeadline, after, answer)
-				pm.Lock()
-				cancelN++
-				if prompt {
-					promptN++
-				}
-				pm.Unlock()
-				return v
-			})
+		j := &scenJob{sub: "c05cancel", id: fmt.Sprintf("c%d", i), in: []int64{c05ms(cutDeadline), c05ms(after), b2i(answer)}}
+		j.hist = []string{fmt.Sprintf("cancel:after~%dms", int(after/(50*time.Millisecond))*50), fmt.Sprintf("cancel:peer-answers=%v", answer),
+			fmt.Sprintf("cancel:dir=%d", ex.dir)}
+		j.run = func() (string, []int64) {
+			return c05Stable(func() (string, []int64, bool) { return cancelScenario(ex, cutDeadline, after, answer) })
 		}
 		jobs = append(jobs, j)
 	}
@@ -305,11 +358,11 @@ func engineCutScenarios(rng *rand.Rand, n int, tier string, o *Out) {
 		ex.name = fmt.Sprintf("rx%d", i)
 		ref, streams := runRelayCut(ex, 1, faultSpec{off: -1})
 		if ref.harness != "" || ref.err != nil {
-			o.Oracle("relay", ex.name+"-ref", false, ex.name, fmt.Sprintf("[harness-crash] relay reference run failed: %v %s", ref.err, ref.harness))
+			o.Oracle("c05relay", ex.name+"-ref", false, ex.name, fmt.Sprintf("[harness-crash] relay reference run failed: %v %s", ref.err, ref.harness))
 			continue
 		}
 		if v := judgeCut(ex, &ref, cutDeadline); v != "" {
-			o.Oracle("relay", ex.name+"-ref", true, ex.name, "fault-free relayed exchange: "+v)
+			o.Oracle("c05relay", ex.name+"-ref", true, ex.name, "fault-free relayed exchange: "+v)
 			continue
 		}
 		o.Sample(map[string]interface{}{"sub": "relay", "exchange": ex.name, "hop1_req_bytes": len(streams[0][1]), "hop1_res_bytes": len(streams[0][0]),
@@ -324,34 +377,36 @@ func engineCutScenarios(rng *rand.Rand, n int, tier string, o *Out) {
 				for off := rng.Intn(step); off < total; off += step {
 					hop, dir, off := hop, dir, off
 					m := []int{modeClose, modeStall, modeHalfClose}[(off/step)%3]
-					j := &scenJob{sub: "relay", id: fmt.Sprintf("%s-h%d-d%d-o%d-%s", ex.name, hop, dir, off, modeNames[m]), key: fmt.Sprint(ex.name, hop, dir, off, m)}
+					j := &scenJob{sub: "c05relay", id: fmt.Sprintf("%s-h%d-d%d-o%d-%s", ex.name, hop, dir, off, modeNames[m]),
+						in: []int64{int64(hop), int64(dir), int64(off), int64(m), int64(total)}}
 					j.hist = []string{fmt.Sprintf("relay:hop=%d dir=%d mode=%s", hop, dir, modeNames[m])}
-					j.run = func() string {
-						check := func() (string, bool) {
+					j.run = func() (string, []int64) {
+						check := func() (string, bool, []int64) {
 							r, _ := runRelayCut(ex, hop, faultSpec{dir: dir, off: off, mode: m})
 							if r.harness != "" {
-								return "[harness-crash] " + r.harness, false
+								return "[harness-crash] " + r.harness, false, nil
 							}
+							obs := []int64{b2i(r.err != nil), b2i(!overrun(&r, cutDeadline))}
 							if v := judgeCut(ex, &r, cutDeadline); v != "" {
-								return v, false
+								return v, false, obs
 							}
 							if overrun(&r, cutDeadline) {
-								return fmt.Sprintf("relayed call: deadline %v, control back after %v (err=%v)", cutDeadline, r.elapsed.Round(time.Millisecond), r.err), true
+								return fmt.Sprintf("relayed call: deadline %v, control back after %v (err=%v)", cutDeadline, r.elapsed.Round(time.Millisecond), r.err), true, obs
 							}
-							return "", false
+							return "", false, obs
 						}
-						v, timing := check()
+						v, timing, obs := check()
 						if v != "" && timing {
 							for k := 0; k < 3; k++ {
-								if v2, _ := check(); v2 == "" {
-									return ""
+								if v2, _, obs2 := check(); v2 == "" {
+									return "", obs2
 								}
 							}
 						}
 						if v != "" {
 							v += fmt.Sprintf(" [relay hop %d dir=%d mode=%s offset=%d of %d]", hop, dir, modeNames[m], off, total)
 						}
-						return v
+						return v, obs
 					}
 					jobs = append(jobs, j)
 				}
@@ -366,7 +421,7 @@ func engineCutScenarios(rng *rand.Rand, n int, tier string, o *Out) {
 		go func() {
 			defer wg.Done()
 			for j := range work {
-				j.verdict = j.run()
+				j.verdict, j.obs = j.run()
 			}
 		}()
 	}
@@ -379,8 +434,11 @@ func engineCutScenarios(rng *rand.Rand, n int, tier string, o *Out) {
 		for _, h := range j.hist {
 			o.Hist(h)
 		}
-		o.Oracle(j.sub, j.id, true, j.key, j.verdict)
+		if j.obs == nil {
+			// the scenario could not be set up (harness-level): oracle only
+			o.Oracle(j.sub, j.id, false, j.id, j.verdict)
+			continue
+		}
+		o.Case(j.sub, j.id, j.in, j.obs, true, j.verdict)
 	}
-	_ = promptN
-	_ = cancelN
 }
